@@ -46,7 +46,7 @@ func genHello(r *rand.Rand, has10, has11 bool, withSID bool, sid uint64) (string
 		caps = append(caps, extraCaps[i])
 	}
 	r.Shuffle(len(caps), func(i, j int) { caps[i], caps[j] = caps[j], caps[i] })
-	pfx := pick(r, "", "", "nc:")
+	pfx := pick(r, "", "", "nc:", "nc:", "ns0:", "n1:", "netconf_base:")
 	nl, ind := "", ""
 	if r.IntN(2) == 0 {
 		nl, ind = "\n", pick(r, "  ", "\t", "")
@@ -58,7 +58,7 @@ func genHello(r *rand.Rand, has10, has11 bool, withSID bool, sid uint64) (string
 	if pfx == "" {
 		sb.WriteString(`<hello xmlns="urn:ietf:params:xml:ns:netconf:base:1.0">` + nl)
 	} else {
-		sb.WriteString(`<nc:hello xmlns:nc="urn:ietf:params:xml:ns:netconf:base:1.0">` + nl)
+		sb.WriteString(`<` + pfx + `hello xmlns:` + strings.TrimSuffix(pfx, ":") + `="urn:ietf:params:xml:ns:netconf:base:1.0">` + nl)
 	}
 	sb.WriteString(ind + "<" + pfx + "capabilities>" + nl)
 	for _, c := range caps {
